@@ -185,7 +185,8 @@ def cadence(chk, rng, q):
         def draw(g):
             a, b = pairs[state["k"] % len(pairs)]
             state["k"] += 1
-            return {"tuf": b, "pd": a, "tnd": b, "td": b, "tau": float(g.choice([0.25, 0.125, 0.75, 1.0]))}
+            tau = [0.25, 0.125, 0.75, 0.5, 1.0, 0.25][(state["k"] - 1) % len(pairs)]     # tau = 1 hides how often a soft update is applied
+            return {"tuf": b, "pd": a, "tnd": b, "td": b, "tau": tau}
         rs = lc.collect(chk, rng, [name], per, quick=True, extra=draw, gen=gen)
         for r in rs:
             res, cfg, case, extra = r["res"], r["cfg"], lc.case_of(r), r["extra"]
